@@ -65,7 +65,7 @@ def full_config(rng, nservers=1, nodeid=None, minimal=False, drop=(), tmrnum=Non
                               gen.rand_bytes(rng, size), gen.rand_bytes(rng, size)))
             off += size
         nsub = ng if ng == 1 else ng + 1
-        cfg.add(var(0x1010, 0, D | R, 1, nsub)); cfg.add(var(0x1011, 0, D | R, 1, nsub))
+        cfg.add(var(0x1010, 0, D | R, 1, nsub, "parastore")); cfg.add(var(0x1011, 0, D | R, 1, nsub, "pararestore"))
         for s in range(1, nsub + 1):
             g = 0 if s == 1 else s - 2
             cfg.add(Obj(0x1010, s, RW, "parastore", "P", g)); cfg.add(Obj(0x1011, s, RW, "pararestore", "P", g))
